@@ -184,6 +184,33 @@ class Env:
             fn.__annotations__ = {"p": P1, "return": h.Module}
         self.try_top, self.try_l, self.try_r = h.generator(try_top), h.generator(try_l), h.generator(try_r)
 
+        # a circular dependency that the designer repairs: RcA calls RcB (which calls RcA back) only
+        # while `rc_broken` is set; RcUser instantiates RcA
+        self.rc_broken = False
+        self.rc_runs = 0
+
+        def rc_a(p):
+            self.rc_runs += 1
+            if self.rc_broken:
+                return env_self.rc_b(p)
+            m = h.Module()
+            m.p = h.Port()
+            return m
+
+        def rc_b(p):
+            return env_self.rc_a(p)
+
+        def rc_user(p):
+            m = h.Module()
+            m.p = h.Port()
+            m.u = env_self.rc_a(p)(p=m.p)
+            return m
+
+        for fn, nm in ((rc_a, "RcA"), (rc_b, "RcB"), (rc_user, "RcUser")):
+            fn.__name__ = fn.__qualname__ = nm
+            fn.__annotations__ = {"p": P1, "return": h.Module}
+        self.rc_a, self.rc_b, self.rc_user = h.generator(rc_a), h.generator(rc_b), h.generator(rc_user)
+
         env_self = self
         for fn, nm in ((cyc_a, "CycA"), (cyc_b, "CycB")):
             fn.__name__ = fn.__qualname__ = nm
@@ -386,6 +413,34 @@ def exec_calls(arg):
                 exc = interp.norm_exc(e)
                 probe("genuine_cycle_refused" if interp.is_circular_msg(exc) else "genuine_cycle_refused_other_error")
                 obs[i] = {"raised": "cycle"}
+            # the same with a dependency the designer then repairs: the failed call is simply run
+            # again, and so is any other generator that uses it
+            p_ = env.P["P1"](**op[1])
+            env.rc_broken = True
+            try:
+                env.rc_a(p_)
+                probe("repairable_cycle_returned")  # (memoised by an earlier, repaired call)
+            except RecursionError:
+                probe("repairable_cycle_recursion_error")
+            except Exception:  # noqa
+                env.rc_broken = False
+                runs = env.rc_runs
+                for who, g_ in (("the repaired generator", env.rc_a), ("a generator that instantiates the repaired one", env.rc_user)) if i % 2 else (("a generator that instantiates the repaired one", env.rc_user), ("the repaired generator", env.rc_a)):
+                    try:
+                        g_(p_)
+                        probe("repaired_cycle_retried")
+                    except Exception as e:  # noqa
+                        exc = interp.norm_exc(e)
+                        if interp.is_circular_msg(exc):
+                            fail("spurious-circular", f"call #{i}: after a circular dependency was refused and then removed, {who} is still refused: {exc[1][:150]}")
+                        else:
+                            probe("repaired_cycle_refused:" + exc[0])
+                        break
+                else:
+                    if env.rc_runs == runs:
+                        fail("raising-body-not-rerun", f"call #{i}: the generator whose circular dependency was removed was not run again")
+            finally:
+                env.rc_broken = False
             continue
         if op[0] in ("call", "call_inner_of"):
             gid, spec, form = op[1], op[2], op[3]
